@@ -285,6 +285,8 @@ MUTANTS = [
     M("z-index-zero", W, "UrwidImage.__init__", "style_args[\"z_index\"] = self._ti_z_index = self._ti_get_z_index()", "style_args[\"z_index\"] = self._ti_z_index = 0", {"R4"}),
     M("successor-same", W, "UrwidImage._ti_get_z_index", "-z_index if z_index > 0 else -z_index + 1", "-z_index if z_index > 0 else -z_index", {"R4"}),
     M("overflow-2-32", W, "UrwidImage._ti_get_z_index", "if z_index == 2**31:", "if z_index == 2**32:", {"R4"}),
+    M("delete-all-per-view", W, "UrwidImageScreen._ti_clear_images", "                self.clear_images()\n                # Multiple `clear_images()`s messes up the canvas disguise\n                # A single `clear_images()` takes care of all images anyways\n                break\n", "                self.clear_images()\n", {"R2"}),
+    M("tails-not-aged-at-shard-end", W, "UrwidImageScreen._ti_clear_images", "                col += cols\n            process_shard_tails()\n            row += n_rows\n", "                col += cols\n            row += n_rows\n", {"R2"}),
     M("twin-key-order", W, "UrwidImageScreen._ti_clear_images", "image_cviews.add((canv, row, col, *trim, cols, rows))", "image_cviews.add((canv, row, col, cols, rows, *trim))", twin=True),
     M("revert-fix-frozenset-clear", W, "UrwidImageScreen._ti_clear_images", "                self._ti_image_cviews = frozenset()\n", "                self._ti_image_cviews.clear()\n", {"R5", "R2"}),
     M("key-loses-cols", W, "UrwidImageScreen._ti_clear_images", "image_cviews.add((canv, row, col, *trim, cols, rows))", "image_cviews.add((canv, row, col, *trim, rows))", {"R2"}),
